@@ -351,3 +351,6 @@ def run(chk):  # noqa: F811
     r5 = chk.rule("R5", "a handshake stage closes its re-entry gate only when the stage is finished", "T3 region + T4",
                   "in the engine's byte-driven handlers no assignment of a stage's gate field is followed, inside the gated stage, by a need-more-bytes early return (a fragmented greeting would stall the handshake for ever)")
     rule_gate_closes_after_stage(chk, r5, r"protocol::zmtp::engine::ZmtpEngine::process_\w+$", r"network_read_accumulator", 3)
+    # wrong credentials or keys end in failure on both sides: the mechanisms' accept conditions (= C06 R5)
+    from rules import c06
+    c06.r5_mechanism_typestate(chk, rid="R6")
